@@ -189,9 +189,8 @@ def encode_op_seq(op, wpos, M):
         for o in reversed(op.operands):
             out += encode_op_seq(o, wpos, M)
         return out
-    if codec.is_adjoint(op):
-        return [_addmod(r, {"t": "adj"}) for r in reversed(encode_op_seq(op.base, wpos, M))]
-    if codec.is_pow(op) or (hasattr(op, "base") and hasattr(op, "z") and "**" in op.name):
+    if hasattr(op, "base") and hasattr(op, "z") and (codec.is_pow(op) or "**" in op.name):
+        # (tested before the adjoint: the power of an adjoint is named "Adjoint(...)**z")
         z = op.z
         if not float(z).is_integer():
             raise OffLattice(f"non-integer power {z}")
@@ -202,6 +201,8 @@ def encode_op_seq(op, wpos, M):
         if z < 0:
             inner = [_addmod(r, {"t": "adj"}) for r in reversed(inner)]
         return inner * abs(z)
+    if codec.is_adjoint(op):
+        return [_addmod(r, {"t": "adj"}) for r in reversed(encode_op_seq(op.base, wpos, M))]
     if codec.is_ctrl(op) and op.name not in codec.KNOWN:
         cws = [wpos[w] for w in op.control_wires]
         cvs = [int(bool(v)) for v in op.control_values]
